@@ -88,6 +88,9 @@ def spellings(obj, imports):
 def iter_cases(ctx, rng, n):
   main_no = 0
   for i in range(n):
+    if i % 40 == 9:
+      yield {'kind': 'class-shape', 'which': rng.choice(['inherited-method', 'static-method', 'class-method']), 'order': rng.random() < 0.5}
+      continue
     if i % 7 == 3:
       if rng.random() < 0.35:
         yield {'kind': 'alias-collision', 'how': rng.choice(['second-parse', 'include', 'includer', 'sibling-plain-after-alias', 'sibling-plain-before-alias', 'same-file-rebind']),
@@ -518,7 +521,45 @@ def importlib_get(pk, mod, name):
   return getattr(importlib.import_module(pk + '.' + mod), name)
 
 
+def run_class_shapes(ctx, case):
+  """Methods the quantifier covers beyond plain ones: inherited from a base class, static, class methods."""
+  import importlib
+  import gin
+  gin.clear_config()
+  pk = _S['tree'].new_package('c19s')
+  alpha = importlib.import_module(pk + '.alpha')
+  dyn = 'from __gin__ import dynamic_registration\nfrom %s import alpha\n' % pk
+  which = case['which']
+  ctx.bucket('class-shape:' + which)
+  ctx.fp('class-shape', which, case['order'])
+  if which == 'inherited-method':
+    stmts = ['alpha.K.meth.m = 2', 'alpha.Sub.a = 1']
+    if case['order']:
+      stmts.reverse()
+    try:
+      gin.parse_config(dyn + '\n'.join(stmts) + '\n')
+      sub = gin.get_configurable(alpha.Sub)()
+      k = gin.get_configurable(alpha.K)()
+      got = (sub.a, sub.meth()[1], k.meth()[1])
+      ctx.check(got == (1, 2, 2), 'inherited-method-of-configured-class', 'K.meth.m = 2 and Sub.a = 1 (Sub inherits meth from K): (Sub().a, Sub().meth() m, K().meth() m) = %r' % (got,))
+    except Exception as e:  # pylint: disable=broad-except
+      ctx.check(False, 'inherited-method-of-configured-class', 'configuring K.meth and its subclass Sub in one file (%s) raised %s: %s' % (
+          ' then '.join(stmts), type(e).__name__, str(e)[:200].replace(pk, 'PK')))
+  else:
+    name, prm = ('st', 's') if which == 'static-method' else ('cm', 'c')
+    try:
+      gin.parse_config(dyn + 'alpha.S.%s.%s = 7\n' % (name, prm))
+      inst = gin.get_configurable(alpha.S)()
+      got = getattr(inst, name)()
+      ctx.check(got[1] == 7, 'static-or-class-method-binding-not-delivered', 'alpha.S.%s.%s = 7: calling it on an instance of the configured class returned %r' % (name, prm, got))
+    except Exception as e:  # pylint: disable=broad-except
+      ctx.check(False, 'static-or-class-method-binding-not-delivered', 'alpha.S.%s.%s = 7 raised %s: %s' % (name, prm, type(e).__name__, str(e)[:200].replace(pk, 'PK')))
+  gin.clear_config()
+
+
 def run_case(ctx, case):
+  if case['kind'] == 'class-shape':
+    return run_class_shapes(ctx, case)
   if case['kind'] == 'alias-collision':
     return run_alias_collision(ctx, case)
   if case['kind'] == 'cross-parse':
